@@ -16,7 +16,7 @@ LEVEL = "model_checking"
 RULE = (
     "streams: every multiset of <= N timestamps from the grid x every warm-up/normal assignment; histories: every ordered set "
     "partition of the stream into batches (all arrival orders across clients x all cuts), each alone and interleaved with "
-    "batches of a second task, and with a sample of a second task of the other kind (runner-supplied vs. calculated throughput) at the end of the same batch; runner-supplied throughput streams (all positive, zero on alternate samples, all zero) separately; variants: clients of odd samples start 0.1 s later (batches in ascending / descending sample order), failed requests "
+    "batches of a second task, and with a sample of a second task of the other kind (runner-supplied vs. calculated throughput) at the end of the same batch or between the task's own samples (a task's samples need not be contiguous in a batch); runner-supplied throughput streams (all positive, zero on alternate samples, all zero) separately; variants: clients of odd samples start 0.1 s later (batches in ascending / descending sample order), failed requests "
     "with 0 operations (all normal ones / the last / all; quick: streams <= 3; thorough at 5 samples: one variant per family). State = prefix of batches delivered to one real "
     "ThroughputCalculator; transition = one calculate() call. non-trivial = history with >= 2 batches or >= 2 samples; "
     "distinct = (stream, partition, variant)"
@@ -124,14 +124,19 @@ def run_history(times, types, batches, other_task, passthrough=False, skew=False
         samples = [
             mk(e["task_a"], i, times[i], e["N"] if types[i] else e["W"], 0 if i in zero_set(zeros, types) else BASE**i, "docs", pt_value(passthrough, i), skew_of(skew, i)) for i in (reversed(batch) if rev else batch)
         ]
-        if other_task == "same":
+        if other_task in ("same", "mid"):
             # the SAME batch ends with a sample of another task of the other kind (runner-supplied throughput if task A's is calculated,
             # calculated if task A's is runner-supplied): the decision is per task, not per batch
             k += 1
-            samples.append(mk(e["task_b"], 100 + k, 0.75 * k, e["N"], 1, "ops", None if passthrough else 5.5 + k))
+            other = mk(e["task_b"], 100 + k, 0.75 * k, e["N"], 1, "ops", None if passthrough else 5.5 + k)
+            if other_task == "mid" and len(samples) >= 2:
+                # ... or sits BETWEEN samples of task A (two workers report both tasks of a parallel element: a task's samples are not contiguous)
+                samples.insert(1, other)
+            else:
+                samples.append(other)
         r = calc.calculate(samples)
         out.append((bi, r.get(e["task_a"], []), r.get(e["task_b"], []), set(r.keys())))
-        if other_task and other_task != "same":
+        if other_task and other_task not in ("same", "mid"):
             # a batch that contains only the other task (task A is still running but has no sample in it)
             k += 1
             rb = calc.calculate([mk(e["task_b"], 100 + k, 0.75 * k, e["N"], 1, "ops")])
@@ -178,7 +183,7 @@ def oracle(times, types, batches, outs, other_task, passthrough, skew=False, rev
                 if tup[4] != "ops/s" or tup[3] < 0:
                     return ("other-task-unit-or-sign", f"{tup}")
             continue
-        if other_task == "same":
+        if other_task in ("same", "mid"):
             b_values += len(tb)
             kb = bi + 1
             if passthrough:
@@ -316,6 +321,8 @@ def _shard(arg):
                 check_history(times, types, p, True, False, res)
                 if not (quick_small and n >= 5):
                     check_history(times, types, p, "same", False, res)
+                if n >= 2 and not (quick_small and n >= 5):
+                    check_history(times, types, p, "mid", False, res)
                 big = quick_small and n >= 5  # the longest streams of the thorough tier: one variant of each family
                 if len(times) > 1:
                     if not big:
@@ -330,6 +337,8 @@ def _shard(arg):
                 for mode in (1, 2, 3):
                     check_history(times, types, p, False, mode, res)
                 check_history(times, types, p, "same", 1, res)
+                if n >= 2:
+                    check_history(times, types, p, "mid", 1, res)
     return res
 
 
